@@ -8,10 +8,13 @@ PROPERTY = {
                   'xdoctest.core:parse_google_docstr_examples#blocks', 'xdoctest.core:parse_auto_docstr_examples#dispatch',
                   'xdoctest.core:parse_freeform_docstr_examples#offsets', 'xdoctest.docstr.docscrape_google:split_google_docblocks',
                   'xdoctest.core:parse_google_docstr_examples', 'xdoctest.core:parse_freeform_docstr_examples',
-                  'xdoctest.core:parse_doctestables#glue', 'xdoctest.core:package_calldefs', 'xdoctest.core:parse_docstr_examples#list'],
+                  'xdoctest.core:parse_doctestables#glue', 'xdoctest.core:package_calldefs', 'xdoctest.core:package_calldefs#glue',
+                  'xdoctest.core:_rectify_to_modpath', 'xdoctest.static_analysis:package_modpaths#list', 'xdoctest.core:parse_calldefs',
+                  'xdoctest.utils.util_import:modpath_to_modname#name', 'xdoctest.core:parse_docstr_examples#list'],
     'extra': ['bounded.c07_dispatch.run', 'bounded.c07_tree.run', 'bounded.c07_collect.run'],
     'clauses': {
-        'P': ['parse_doctestables (collection glue): for every module and every collected definition, in order, a docstring is parsed exactly once with the definition\'s own name, docstring line, module path and the requested style, and every doctest found is yielded',
+        'P': ['package_calldefs (for a package given by name or path): every module path of the package, in order, is analysed exactly once -- unless its name matches an exclude pattern or the file is missing -- and its definitions are yielded with that path',
+              'parse_doctestables (collection glue): for every module and every collected definition, in order, a docstring is parsed exactly once with the definition\'s own name, docstring line, module path and the requested style, and every doctest found is yielded',
               'google style: exactly the blocks labelled Example / Doctest / Script / Benchmark become doctests, in order, numbered 0, 1, ..; '
               'freeform (asone): at most one doctest per docstring, exactly when some part is kept; auto: the google blocks when there are any, else freeform',
               'visit_FunctionDef (also the handler of async functions): records exactly one entry, under name or Class.name, unless a decorator '
